@@ -458,7 +458,14 @@ fn unify(template: &Ty, actual: &Ty, subst: &mut Subst) -> Result<(), String> {
             }
             unify(le, re, subst)
         }
-        (Ty::TRef { elem: le }, Ty::TRef { elem: re }) => unify(le, re, subst),
+        (Ty::TRef { elem: le }, Ty::TRef { elem: re })
+        | (Ty::TVec { elem: le }, Ty::TVec { elem: re }) => unify(le, re, subst),
+        (Ty::TDyn { trait_name: ln }, Ty::TDyn { trait_name: rn }) => {
+            if ln != rn {
+                return Err("trait object mismatch".to_string());
+            }
+            Ok(())
+        }
         (
             Ty::TFunc {
                 params: lp,
@@ -956,6 +963,9 @@ impl<'a> TypeMono<'a> {
                 elem: Box::new(self.collapse_type_apps(elem)),
             },
             Ty::TRef { elem } => Ty::TRef {
+                elem: Box::new(self.collapse_type_apps(elem)),
+            },
+            Ty::TVec { elem } => Ty::TVec {
                 elem: Box::new(self.collapse_type_apps(elem)),
             },
             _ => ty.clone(),
